@@ -342,6 +342,117 @@ impl StunMessage {
 //@end
 }
 
+// ---- what an encoded message is: a function of the message alone (C14: independent of the buffer)
+pub open spec fn zeros(n: int) -> Seq<u8> { Seq::new(n as nat, |i: int| 0u8) }
+pub open spec fn set_len(p: Seq<u8>, l: int) -> Seq<u8> {
+    p.update(2, (l / 256) as u8).update(3, (l % 256) as u8)
+}
+pub open spec fn hdr_img(msg: StunMessage) -> Seq<u8> {
+    be16_seq(rfc_type(msg.method.0, spec_class_bits(msg.class)) as int) + seq![0u8, 0u8]
+        + be32_seq(0x2112A442) + msg.transaction_id.0@
+}
+// image of the header plus the first k attributes, exactly as the RFC lays them out:
+// TLV = type(16) length(16) value padding-to-4 ; the header length covers everything after byte 20;
+// an attribute's post-processing (MAC / CRC) sees the prefix with the length already covering itself
+pub open spec fn post_n(a: StunAttribute, enc: Seq<u8>, v: Seq<u8>) -> Seq<u8> {
+    let w = a.post_wire(enc, v);
+    if w.len() == v.len() { w } else { v }
+}
+pub open spec fn tlv_step(p: Seq<u8>, a: StunAttribute) -> Seq<u8> {
+    let v = a.wire(p);
+    let p2 = set_len(p, p.len() - 20 + 4 + v.len() + pad4(v.len() as int));
+    p2 + be16_seq(a.spec_type() as int) + be16_seq(v.len() as int) + post_n(a, p2, v) + zeros(pad4(v.len() as int))
+}
+#[verifier::opaque]
+pub open spec fn img(msg: StunMessage, k: int) -> Seq<u8>
+    decreases k
+{
+    if k <= 0 { hdr_img(msg) } else { tlv_step(img(msg, k - 1), msg.attributes@[k - 1]) }
+}
+pub open spec fn step_ok(msg: StunMessage, k: int) -> bool {
+    let p = img(msg, k - 1);
+    let a = msg.attributes@[k - 1];
+    let v = a.wire(p);
+    let p2 = set_len(p, p.len() - 20 + 4 + v.len() + pad4(v.len() as int));
+    a.encodable(p) && v.len() <= 65535 && p.len() - 20 + 4 + v.len() + pad4(v.len() as int) <= 65535 && a.post_ok(p2, v)
+}
+pub open spec fn enc_ok(msg: StunMessage, k: int) -> bool
+    decreases k
+{
+    k <= 0 || (enc_ok(msg, k - 1) && step_ok(msg, k))
+}
+proof fn lemma_img0(msg: StunMessage)
+    ensures img(msg, 0) == hdr_img(msg), hdr_img(msg).len() == 20,
+{
+    reveal_with_fuel(img, 1);
+}
+proof fn lemma_img_unfold(msg: StunMessage, k: int)
+    requires k >= 1,
+    ensures img(msg, k) == tlv_step(img(msg, k - 1), msg.attributes@[k - 1]),
+{
+    reveal_with_fuel(img, 2);
+}
+proof fn lemma_tlv_step_len(p: Seq<u8>, a: StunAttribute)
+    ensures tlv_step(p, a).len() == p.len() + 4 + a.wire(p).len() + pad4(a.wire(p).len() as int),
+        0 <= pad4(a.wire(p).len() as int) < 4,
+{
+}
+proof fn lemma_img_grows(msg: StunMessage, k: int)
+    requires k >= 1,
+    ensures img(msg, k).len() == img(msg, k - 1).len() + 4 + msg.attributes@[k - 1].wire(img(msg, k - 1)).len()
+        + pad4(msg.attributes@[k - 1].wire(img(msg, k - 1)).len() as int),
+        img(msg, k).len() >= img(msg, k - 1).len() + 4,
+{
+    lemma_img_unfold(msg, k);
+    lemma_tlv_step_len(img(msg, k - 1), msg.attributes@[k - 1]);
+}
+proof fn lemma_fail_prefix(msg: StunMessage, k: int, n: int, buflen: int)
+    requires 1 <= k <= n,
+    ensures (!step_ok(msg, k) || buflen < img(msg, k).len()) ==> !(enc_ok(msg, n) && buflen >= img(msg, n).len()),
+    decreases n - k,
+{
+    if n > k {
+        lemma_fail_prefix(msg, k, n - 1, buflen);
+        lemma_img_grows(msg, n);
+    }
+}
+proof fn lemma_img_ge20(msg: StunMessage, k: int)
+    ensures img(msg, k).len() >= 20,
+    decreases k,
+{
+    if k <= 0 { lemma_img0(msg); reveal_with_fuel(img, 1); } else { lemma_img_ge20(msg, k - 1); lemma_img_grows(msg, k); }
+}
+// the pieces written by one loop iteration make up tlv_step
+proof fn lemma_compose(rf: Seq<u8>, af: Seq<u8>, p: Seq<u8>, a: StunAttribute, l2: int, n: int, vl: int)
+    requires
+        n == p.len(), vl == a.wire(p).len(),
+        n >= 20,
+        l2 == n - 20 + 4 + vl + pad4(vl),
+        rf == set_len(p, l2),
+        af.len() >= 4 + vl + pad4(vl),
+        af[0] == (a.spec_type() / 256) as u8, af[1] == (a.spec_type() % 256) as u8,
+        af[2] == ((vl as u16) / 256) as u8, af[3] == ((vl as u16) % 256) as u8,
+        vl <= 65535,
+        af.subrange(4, 4 + vl) == post_n(a, set_len(p, l2), a.wire(p)),
+        forall|i: int| 4 + vl <= i < 4 + vl + pad4(vl) ==> af[i] == 0u8,
+    ensures (rf + af).subrange(0, 20 + l2) == tlv_step(p, a),
+{
+    let t = tlv_step(p, a);
+    let buf = rf + af;
+    let s = buf.subrange(0, 20 + l2);
+    assert(s.len() == t.len());
+    assert forall|i: int| 0 <= i < s.len() implies s[i] == t[i] by {
+        if i < n {
+        } else if i < n + 2 {
+        } else if i < n + 4 {
+        } else if i < n + 4 + vl {
+            assert(af.subrange(4, 4 + vl)[i - n - 4] == af[i - n]);
+        } else {
+        }
+    }
+    assert(s =~= t);
+}
+
 //@item! stun_rs :: mod context > struct MessageEncoder
 impl MessageEncoder {
 //@item stun_rs :: mod context > impl MessageEncoder > fn encode
@@ -349,12 +460,79 @@ impl MessageEncoder {
 //@rules R3
 //@spec
     ensures final(buffer)@.len() == old(buffer)@.len(),
+        msg.method.0 <= 0x0FFF ==> (r is Ok <==> enc_ok(*msg, msg.attributes@.len() as int)
+            && old(buffer)@.len() >= img(*msg, msg.attributes@.len() as int).len()),
+        (msg.method.0 <= 0x0FFF && r is Ok) ==> {
+            let n = r->Ok_0 as int;
+            &&& n == img(*msg, msg.attributes@.len() as int).len()
+            &&& n <= old(buffer)@.len()
+            &&& final(buffer)@.subrange(0, n) == img(*msg, msg.attributes@.len() as int)
+            &&& forall|i: int| n <= i < old(buffer)@.len() ==> final(buffer)@[i] == old(buffer)@[i]
+            &&& (n - 20) % 4 == 0
+            &&& n - 20 <= 65535
+            &&& be16(final(buffer)@.subrange(2, 4)) == n - 20
+        },
 //@loop 1
     invariant
         buffer@.len() == old(buffer)@.len(),
         vx_s0@ == msg.attributes@,
         position <= vx_s0@.len(),
+        20 + length <= buffer@.len(),
+        length <= 65535,
+        length % 4 == 0,
+        msg.method.0 <= 0x0FFF ==> {
+            &&& 20 + length == img(*msg, position as int).len()
+            &&& buffer@.subrange(0, 20 + length as int) == img(*msg, position as int)
+            &&& enc_ok(*msg, position as int)
+            &&& be16(buffer@.subrange(2, 4)) == length
+        },
+        forall|i: int| 20 + length <= i < buffer@.len() ==> buffer@[i] == old(buffer)@[i],
     decreases vx_s0@.len() - position,
+//@prefix
+#[verifier::rlimit(60)]
+//@before "check_buffer_boundaries(buffer,"
+    proof { lemma_img_ge20(*msg, msg.attributes@.len() as int); }
+//@before "let mut length: usize = 0;"
+    proof { lemma_img0(*msg); }
+//@before "let vx_s0 = msg.attributes();"
+    proof {
+        if msg.method.0 <= 0x0FFF {
+            assert(buffer@.subrange(0, 20) =~= hdr_img(*msg));
+        }
+        assert(buffer@.subrange(2, 4) =~= seq![0u8, 0u8]);
+    }
+//@before "let coded_index = length + MESSAGE_HEADER_SIZE;"
+    proof {
+        lemma_fail_prefix(*msg, position as int + 1, msg.attributes@.len() as int, buffer@.len() as int);
+        lemma_img_grows(*msg, position as int + 1);
+        lemma_img_unfold(*msg, position as int + 1);
+    }
+    let ghost buf0 = buffer@;
+    let ghost p = buffer@.subrange(0, 20 + length as int);
+    let ghost length0 = length;
+//@before "let coded_value ="
+    let ghost a_pad = attributes@;
+    proof {
+        if msg.method.0 <= 0x0FFF {
+            assert(raw_msg@ =~= set_len(p, length as int));
+            assert(attributes@.subrange(4, 4 + value_size as int) =~= attr.wire(p));
+        }
+    }
+//@before "position += 1;"
+    let ghost af = attributes@;
+    let ghost rf = raw_msg@;
+    proof {
+        let v = attr.wire(p);
+        assert(buffer@ == rf + af);
+        assert(af.len() == a_pad.len());
+        assert(forall|i: int| 4 + value_size <= i < af.len() ==> af[i] == a_pad[i]);
+        assert(forall|i: int| 0 <= i < 4 ==> af[i] == a_pad[i]);
+        if msg.method.0 <= 0x0FFF {
+            assert(af.subrange(4, 4 + v.len() as int) =~= post_n(*attr, set_len(p, length as int), v));
+            lemma_compose(rf, af, p, *attr, length as int, p.len() as int, v.len() as int);
+        }
+        assert(forall|i: int| 20 + length <= i < buffer@.len() ==> buffer@[i] == old(buffer)@[i]);
+    }
 //@end
 }
 proof fn vx_sentinel() ensures false {}
